@@ -274,7 +274,7 @@ def gen_pair(rng, mods, aspect):
             break
         t1 = hg.value(rng, ids, rng.choice([2, 3]), top=True)
         want = {"value": ("scalar_value", "drop"), "type": ("scalar_type", "retag"), "nesting": ("regroup",)}[aspect]
-        mname, t2 = hg.mutate(rng, t1, ids)
+        mname, t2 = hg.mutate(rng, t1, ids, only=want)
         if mname in want and not c08.has_partial_order(hm.build(t1)):
             break
     else:
